@@ -26,6 +26,12 @@ MULTIS = [None, "first", "last", "single", "all"]
 def gen_case(r):
     d = G.doc(r, 4 if r.coin(60) else 3)
     p = G.guided_path(r, d, max_len=4, miss=10, mode="typed", meaningful=True)
+    if r.pct() < 8:
+        # a concrete walk down to a container, then ONE part over its children (the shape `DataPath(...) / part`)
+        pre = G.guided_path(r, d, max_len=2, min_len=1, miss=0, mode="typed", prim_only=True)
+        sel = model.ref_select(pre.parts, d)
+        if sel and isinstance(sel[0][0], (list, dict)) and len(sel[0][0]) >= 2:
+            p = PathT(list(pre.parts) + [Part(r.choice(["mol", "list" if isinstance(sel[0][0], list) else "map"]))])
     return d, p, r.coin()
 
 
@@ -51,7 +57,8 @@ def body(case):
 
     try:
         base = build.build_path(path)
-        if not conc and len(parts) >= 2 and len(repr(parts)) % 2:
+        concrete_left = len(parts) >= 2 and all(isinstance(x, Prim) for x in parts[:-1]) and isinstance(parts[-1], Part)
+        if not conc and len(parts) >= 2 and (concrete_left or len(repr(parts)) % 2):
             # the same (non-concrete) path put together with the `/` operator: path / part, or path / path
             k = 1 + len(repr(parts)) % (len(parts) - 1)
             if all(isinstance(x, Prim) for x in parts[:-1]) and isinstance(parts[-1], Part):
@@ -94,6 +101,9 @@ def body(case):
         pairs = [] if gp is None else [gp]
         vals = [] if gp is None else [gv]
     else:
+        if not isinstance(gp, list) or not isinstance(gv, list):
+            out.add("selection", f"selection|shape|{kind}", f"a path holding a list / map part answered {show(gp,150)} / {show(gv,150)}, not with lists of matches")
+            return out
         pairs, vals = list(gp), list(gv)
     for v, pth in pairs:
         try:
